@@ -93,6 +93,8 @@ class _FuseMinMaxBase(RewriteRuleClassBase, abc.ABC):
         first_node = out1.producer()
         second_node = out2.producer()
 
+        x_shape = first_node.inputs[0].shape
+
         # Ensure all inputs except the first are constants
         for input_ in first_node.inputs[1:] + second_node.inputs[1:]:
             if ir.convenience.get_const_tensor(input_) is None:
@@ -101,6 +103,11 @@ class _FuseMinMaxBase(RewriteRuleClassBase, abc.ABC):
             # If scalars are required (Clip fusion), enforce scalar-ness
             if self.need_scalars and not self._is_scalar(input_.const_value.numpy()):
                 return check_result.fail(f"{input_.name} is not a scalar.")
+            # A one-element constant of higher rank than x broadcasts the Min/Max result to that rank; Clip would not.
+            const_rank = input_.const_value.numpy().ndim
+            if self.need_scalars and const_rank > 0:
+                if x_shape is None or const_rank > x_shape.rank():
+                    return check_result.fail(f"{input_.name} has a higher rank than the input.")
 
         if self.need_scalars and self.check_bounds:
             # For Clip fusion in the case of Max(Min(X, upper_bound), lower_bound): check that lower_bound <= upper_bound
